@@ -406,6 +406,28 @@ def _scratch(root, repo):
 
 def run_variant(v: Variant, repo: str, tmproot: str, baseline_keys: dict):
     w = os.path.join(tmproot, v.vid)
+    if v.kind == "autotwin":
+        from .twins import make_twin
+        try:
+            stats = make_twin(repo, w)
+        except Exception as e:          # the twin generator is not the checker
+            shutil.rmtree(w, ignore_errors=True)
+            return v, "skipped", f"rename twin not generated: {type(e).__name__}: {e}"
+        try:
+            pr = subprocess.run([os.path.join(VERIF, "vcheck"), v.prop, "--no-write",
+                                 "--tier", "quick", "--repo", w],
+                                capture_output=True, text=True)
+            keys = [l.split("] ")[1].split(": ")[0] for l in pr.stdout.splitlines()
+                    if l.startswith("  ") and "] " in l]
+            new_keys = [k for k in keys if k not in baseline_keys.get(v.prop, set())]
+            if pr.returncode == 2 or new_keys:
+                return v, "NOISY", {"exit": pr.returncode, "keys": new_keys[:5],
+                                    "tail": [l for l in pr.stdout.splitlines()
+                                             if "ANALYSIS-ERROR" in l][:2]}
+            return v, "ok", {"renamed_identifiers": sum(stats.values()),
+                             "files": sum(1 for x in stats.values() if x)}
+        finally:
+            shutil.rmtree(w, ignore_errors=True)
     _scratch(w, repo)
     try:
         if v.patch:
@@ -443,7 +465,8 @@ def run_variant(v: Variant, repo: str, tmproot: str, baseline_keys: dict):
                 with open(p, "w", encoding="utf-8") as f:
                     f.write(s)
         pr = subprocess.run([os.path.join(VERIF, "vcheck"), v.prop, "--no-write",
-                             "--repo", w], capture_output=True, text=True)
+                             "--tier", "quick", "--repo", w],
+                            capture_output=True, text=True)
         keys = [l.split("] ")[1].split(": ")[0] for l in pr.stdout.splitlines()
                 if l.startswith("  ") and "] " in l]
         new_keys = [k for k in keys if k not in baseline_keys.get(v.prop, set())]
@@ -467,7 +490,8 @@ def baseline(props, repo):
     """Finding keys (incl. known ones) on the unmodified tree."""
     out = {}
     for p in props:
-        pr = subprocess.run([os.path.join(VERIF, "vcheck"), p, "--no-write", "--repo", repo],
+        pr = subprocess.run([os.path.join(VERIF, "vcheck"), p, "--no-write",
+                             "--tier", "quick", "--repo", repo],
                             capture_output=True, text=True)
         keys = set()
         for l in pr.stdout.splitlines():
@@ -482,6 +506,7 @@ def baseline(props, repo):
 def self_validate(prop: str, repo: str, jobs: int = 16):
     """Run all variants of `prop`; returns (results, summary)."""
     variants = [v for v in CATALOGUE + fix_reverts() if v.prop == prop]
+    variants.append(Variant("auto-rename-all-locals", prop, "autotwin"))
     tmproot = tempfile.mkdtemp(prefix=f"pyuverif_{prop}_",
                                dir=os.environ.get("TMPDIR", "/tmp"))
     try:
@@ -491,6 +516,9 @@ def self_validate(prop: str, repo: str, jobs: int = 16):
     finally:
         shutil.rmtree(tmproot, ignore_errors=True)
     summary = {"variants": len(variants),
+               "break_variants": sum(1 for v in variants if v.kind == "break"),
+               "twin_variants": sum(1 for v in variants if v.kind != "break"),
+               "ok_ids": [v.vid for v, s, _ in res if s == "ok"],
                "ok": sum(1 for _, s, _ in res if s == "ok"),
                "skipped": [(v.vid, d) for v, s, d in res if s == "skipped"],
                "missed": [(v.vid, d) for v, s, d in res if s == "MISSED"],
